@@ -11,9 +11,11 @@
 (*  en  us-hyphen | us-space | uk-and                                      *)
 (*  fr  trad | spaces | hyphens (1990, hyphens everywhere incl. -et-)      *)
 (*      each also with regional tens septante/huitante/nonante             *)
-(*  es  masc | fem   (apocope un/veintiún before mil/millones)             *)
+(*  es  masc | fem | noy (conjunction y left out)  (apocope un/veintiún    *)
+(*      before mil/millones)                                               *)
 (*  pt  eu | br | fem                                                      *)
-(*  it  compound (elision) | noelide | spaced (thousands group apart)      *)
+(*  it  compound (elision) | noelide | spaced (thousands group apart) |    *)
+(*      conj (e between the groups)                                        *)
 (*  de  std | bare (no ein before hundert/tausend) | ss (dreissig) |       *)
 (*      split (morphemes apart) | groups (thousands compound, rest) |      *)
 (*      groups3 (hundreds apart too); always eine Million / Milliarde      *)
@@ -100,6 +102,7 @@ Es99(n, apoc, fem) ==
                    ELSE IF n = 21 THEN (IF apoc THEN "veintiún" ELSE IF fem THEN "veintiuna" ELSE "veintiuno")
                    ELSE ES1[n]>>
   ELSE IF n % 10 = 0 THEN <<ES10[n \div 10]>> ELSE <<ES10[n \div 10], "y">> \o Es99(n % 10, apoc, fem)
+DropY(ws) == SelectSeq(ws, LAMBDA w : w # "y")
 Es999(g, apoc, fem) ==
   IF g = 100 THEN <<"cien">> ELSE
   LET h == g \div 100  r == g % 100
@@ -114,7 +117,8 @@ EsCard(gs, v) ==
       mpart == IF gs[4] = 0 /\ gs[3] = 0 THEN <<>>
                ELSE IF gs[4] = 0 /\ gs[3] = 1 THEN <<"un", "millón">>
                ELSE EsBelowMillion(gs[4], gs[3], TRUE, FALSE) \o <<"millones">>
-  IN JoinW(mpart \o EsBelowMillion(gs[2], gs[1], FALSE, fem))
+      ws == mpart \o EsBelowMillion(gs[2], gs[1], FALSE, fem)
+  IN JoinW(IF v = "noy" THEN DropY(ws) ELSE ws)
 
 (* ======================================================================= *)
 (* Portuguese                                                              *)
@@ -168,8 +172,11 @@ ItCard(gs, v) ==
       big(i, sing, plur) == IF gs[i] = 0 THEN <<>> ELSE IF gs[i] = 1 THEN <<"un", sing>> ELSE <<It999(gs[i], TRUE, elide), plur>>
       th == IF gs[2] = 0 THEN "" ELSE IF gs[2] = 1 THEN "mille" ELSE It999(gs[2], FALSE, elide) \o "mila"
       un == IF gs[1] = 0 THEN "" ELSE It999(gs[1], TRUE, elide)
-      low == IF v = "spaced" THEN JoinW(<<th, un>>) ELSE th \o un
-  IN JoinW(big(4, "miliardo", "miliardi") \o big(3, "milione", "milioni") \o <<low>>)
+      low == IF v = "spaced" THEN JoinW(<<th, un>>)
+             ELSE IF v = "conj" THEN (IF th # "" /\ un # "" THEN JoinW(<<th, "e", un>>) ELSE th \o un)
+             ELSE th \o un
+      bigs == big(4, "miliardo", "miliardi") \o big(3, "milione", "milioni")
+  IN JoinW(bigs \o (IF v = "conj" /\ bigs # <<>> /\ th = "" /\ un # "" THEN <<"e">> ELSE <<>>) \o <<low>>)
 
 (* ======================================================================= *)
 (* German: morpheme sequences, compounded or split                         *)
@@ -197,7 +204,9 @@ DeCard(gs, v) ==
       \* groups: the thousands compound and the rest as two words; groups3: hundreds apart as well
       hun == IF gs[1] >= 100 THEN (IF gs[1] \div 100 > 1 \/ ein THEN <<DE1[gs[1] \div 100]>> ELSE <<>>) \o <<"hundert">> ELSE <<>>
       rest == IF gs[1] % 100 > 0 THEN De99M(gs[1] % 100, TRUE) ELSE <<>>
-      low == IF v = "groups" THEN <<glue(th), glue(un)>>
+      small == gs[1] % 100 >= 1 /\ gs[1] % 100 <= 12
+      low == IF v = "conj" /\ small /\ (gs[1] >= 100 \/ gs[2] > 0) THEN <<Concat(th \o hun \o <<"und">> \o rest)>>
+             ELSE IF v = "groups" THEN <<glue(th), glue(un)>>
              ELSE IF v = "groups3" THEN <<glue(th), glue(hun), glue(rest)>>
              ELSE <<glue(th \o un)>>
       s == JoinW(big(4, "milliarde", "milliarden") \o big(3, "million", "millionen") \o low)
@@ -223,17 +232,21 @@ NlCard(gs, v) ==
       big(i, w) == IF gs[i] = 0 THEN <<>> ELSE <<IF gs[i] = 1 THEN one ELSE glue(Nl999M(gs[i], split)), w>>
       th == IF gs[2] = 0 THEN <<>> ELSE <<glue((IF gs[2] > 1 THEN Nl999M(gs[2], split) ELSE <<>>) \o <<"duizend">>)>>
       un == IF gs[1] = 0 THEN <<>> ELSE <<IF gs[1] = 1 /\ v = "accent" /\ IsZero([gs EXCEPT ![1] = 0]) THEN "één" ELSE glue(Nl999M(gs[1], split))>>
-  IN JoinW(big(4, "miljard") \o big(3, "miljoen") \o th \o un)
+      small == gs[1] % 100 >= 1 /\ gs[1] % 100 <= 12
+      hpart == IF gs[1] >= 100 THEN <<Concat((IF gs[1] \div 100 > 1 THEN <<NL1[gs[1] \div 100]>> ELSE <<>>) \o <<"honderd">>)>> ELSE <<>>
+      before == big(4, "miljard") \o big(3, "miljoen") \o th \o hpart
+  IN IF v = "conj" /\ small /\ before # <<>> THEN JoinW(before \o <<"en", NL1[gs[1] % 100]>>)
+     ELSE JoinW(big(4, "miljard") \o big(3, "miljoen") \o th \o un)
 
 (* ======================================================================= *)
 Variants(L) ==
   CASE L = "en" -> <<"us-hyphen", "us-space", "uk-and">>
     [] L = "fr" -> <<"trad", "spaces", "hyphens", "trad+regional", "spaces+regional", "hyphens+regional">>
-    [] L = "es" -> <<"masc", "fem">>
+    [] L = "es" -> <<"masc", "fem", "noy">>
     [] L = "pt" -> <<"eu", "br", "fem">>
-    [] L = "it" -> <<"compound", "noelide", "spaced">>
-    [] L = "de" -> <<"std", "bare", "ss", "split", "groups", "groups3">>
-    [] L = "nl" -> <<"std", "accent", "split">>
+    [] L = "it" -> <<"compound", "noelide", "spaced", "conj">>
+    [] L = "de" -> <<"std", "bare", "ss", "split", "groups", "groups3", "conj">>
+    [] L = "nl" -> <<"std", "accent", "split", "conj">>
 Cardinal(L, gs, v) ==
   CASE L = "en" -> EnCard(gs, v) [] L = "fr" -> FrCard(gs, v) [] L = "es" -> EsCard(gs, v) [] L = "pt" -> PtCard(gs, v)
     [] L = "it" -> ItCard(gs, v) [] L = "de" -> DeCard(gs, v) [] L = "nl" -> NlCard(gs, v)
